@@ -50,11 +50,10 @@ func (m *Migrator) MigrateFiles(patterns []string, outputPath string) error {
 	var results []MigrationResult
 	var allWarnings []Warning
 
-	// Create a shared TypeConverter for all transforms (using first package's types)
+	// A shared TypeConverter for all transforms. It spells types relative to the package the output
+	// belongs to: the first package that has wire patterns, not the first package a pattern such as
+	// ./... happens to load.
 	var sharedTypeConverter *TypeConverter
-	if len(pkgs) > 0 && pkgs[0].Types != nil {
-		sharedTypeConverter = NewTypeConverter(pkgs[0].Types)
-	}
 
 	for _, pkg := range pkgs {
 		// Build a map from syntax position to file path
@@ -98,6 +97,10 @@ func (m *Migrator) MigrateFiles(patterns []string, outputPath string) error {
 					Message: fmt.Sprintf("No wire patterns found in %s", filePath),
 				})
 				continue
+			}
+
+			if sharedTypeConverter == nil && pkg.Types != nil {
+				sharedTypeConverter = NewTypeConverter(pkg.Types)
 			}
 
 			// Transform patterns
